@@ -52,6 +52,7 @@ func vBuildApp() *Flame {
 	})
 	f.Use(func(c Context) { c.Map(&vReqVal{tag: len(c.Request().URL.Path)}) }) // request-scoped Map
 	f.Use(Renderer())
+	f.Use(func() {}) // a fifth middleware: the application's handler list now has spare capacity (len 5, cap 8), as lists grown by append do
 	f.Map(&vSvc{name: "svc"})
 	h := func(c Context, v *vReqVal, r Render, svc vSvcI) string {
 		out := svc.Name() + c.Param("id") + c.Param("rest") + c.Param("opt") + c.Param("name")
